@@ -107,9 +107,8 @@ class StmtMixin:
                 p = self.mut_payload(base.lst)
                 if target.attr not in p.fields:
                     raise Unsupported(f"record field {target.attr}")
+                v = self.coerce(p.cls, target.attr, v)
                 tv = v.t if isinstance(v, (VBool, VInt, VAtom)) else None
-                if tv is None and isinstance(v, VFunc):
-                    tv = z3.IntVal(intern_atom("fn:" + str(v.name)))
                 if tv is None:
                     raise Unsupported(f"store {v!r} into record field")
                 p.fields[target.attr] = z3.Store(p.fields[target.attr], base.idx, tv)
@@ -391,6 +390,8 @@ class StmtMixin:
             return v
         if v is UNBOUND or v is None:
             return UNBOUND
+        if isinstance(v, (VObj, VFunc, VTuple, VNone, VElem)) and name in getattr(self, "_for_targets", ()):
+            return UNBOUND  # re-assigned at the start of every iteration
         if isinstance(v, (VObj, VFunc, VTuple, VNone, VElem)):
             raise ContractError(f"loop variable {name} of kind {type(v).__name__} needs a declared type in the loop contract")
         raise Unsupported(f"havoc of {v!r}")
@@ -409,6 +410,13 @@ class StmtMixin:
             self.assume_axiom(ln >= 0)
         elif isinstance(p, StrListP):
             self.payload[ref] = StrListP(p.len, p.init)
+        elif isinstance(p, PyListP) and all(isinstance(x, (VAtom, VInt)) or (isinstance(x, VStr) and x.kind == "lit") for x in p.items):
+            # a local list of names/ints that grows in the loop: becomes a symbolic (array, length) list
+            n = self.new_ref(name)
+            ln = z3.Int(f"len({n})")
+            elem = "int" if p.items and all(isinstance(x, VInt) for x in p.items) else "atom"
+            self.payload[ref] = IntListP(z3.Array(n, z3.IntSort(), z3.IntSort()), ln, elem)
+            self.assume_axiom(ln >= 0)
         elif isinstance(p, GhostSeqP):
             raise Unsupported("loop appends tokens (ghost sequence)")
         else:
@@ -432,7 +440,10 @@ class StmtMixin:
         if isinstance(v, VObj):
             if v.cls in SCHEMA and last in SCHEMA[v.cls]:
                 cur = self.get_field(v, last)
-                if isinstance(cur, VList):
+                sty = SCHEMA[v.cls][last]
+                if sty in ("int", "bool", "atom", "str", "cache", "opaque", "map", "optlist") and not types.get(last):
+                    self.heap[(v.ref, last)] = self.sym_for_type(sty, self.new_ref(path))
+                elif isinstance(cur, VList):
                     self.havoc_payload(cur.ref, path)
                 elif isinstance(cur, VObj) and cur.cls.startswith("<"):
                     self.heap[(v.ref, last)] = VObj(self.new_ref(path), cur.cls)
@@ -460,6 +471,7 @@ class StmtMixin:
             self.oblige("INV-init", f"{site}/{label}", self.spec_bool(expr, fr, label), st)
         # 2. havoc
         names, heap_paths = self.havoc_targets(st, fr)
+        self._for_targets = assigned_names([st.target]) if isinstance(st, ast.For) else set()
         if ghost:
             names.add(ghost)
         for n in sorted(names):
